@@ -84,6 +84,56 @@ lev! {
     c31_lev_4_0: 4, 0; c31_lev_4_1: 4, 1; c31_lev_4_2: 4, 2; c31_lev_4_3: 4, 3; c31_lev_4_4: 4, 4;
 }
 
+/// Native confirmation of a failing (|act|, |exp|) instance (used by the runner through
+/// `cargo kani playback`, i.e. ordinary native execution): enumerates every equality pattern of
+/// the two sequences (values only matter up to equality), runs the REAL function and checks the
+/// same oracle with an independent reference distance.  Returns the first failing input.
+pub(crate) fn native_confirm(n: usize, m: usize) -> Option<(Vec<u16>, Vec<u16>, usize, usize, bool)> {
+    fn ref_dist(a: &[u16], b: &[u16]) -> usize {
+        if a.is_empty() { return b.len(); }
+        if b.is_empty() { return a.len(); }
+        let sub = ref_dist(&a[1..], &b[1..]) + if a[0] == b[0] { 0 } else { 1 };
+        let del = ref_dist(&a[1..], b) + 1;
+        let ins = ref_dist(a, &b[1..]) + 1;
+        sub.min(del).min(ins)
+    }
+    let total = n + m;
+    let mut vals = vec![1u16; total];
+    // all strings over 1..=total (superset of all equality patterns; total <= 8 -> 8^8 at most,
+    // pruned to restricted-growth strings)
+    fn rec(pos: usize, maxv: u16, vals: &mut Vec<u16>, n: usize, m: usize, out: &mut Option<(Vec<u16>, Vec<u16>, usize, usize, bool)>) {
+        if out.is_some() { return; }
+        if pos == vals.len() {
+            let (act, exp) = vals.split_at(n);
+            let (d, ops) = Recovery::levenshtein_distance(act, exp);
+            let (mut i, mut j, mut cost, mut ok) = (0usize, 0usize, 0usize, true);
+            for op in &ops {
+                match op {
+                    EditOp::Keep => { if i < n && j < m && act[i] == exp[j] { i += 1; j += 1; } else { ok = false; } }
+                    EditOp::Replace => { if i < n && j < m { i += 1; j += 1; cost += 1; } else { ok = false; } }
+                    EditOp::Insert => { if j < m { j += 1; cost += 1; } else { ok = false; } }
+                    EditOp::Delete => { if i < n { i += 1; cost += 1; } else { ok = false; } }
+                }
+            }
+            ok = ok && i == n && j == m && cost == d;
+            let r = ref_dist(act, exp);
+            if !ok || d != r {
+                *out = Some((act.to_vec(), exp.to_vec(), d, r, ok));
+            }
+            return;
+        }
+        let mut v = 1;
+        while v <= maxv + 1 && (v as usize) <= vals.len() {
+            vals[pos] = v;
+            rec(pos + 1, if v > maxv { v } else { maxv }, vals, n, m, out);
+            v += 1;
+        }
+    }
+    let mut out = None;
+    rec(0, 0, &mut vals, n, m, &mut out);
+    out
+}
+
 /// vacuity twin: must FAIL
 #[kani::proof]
 #[kani::unwind(8)]
